@@ -150,7 +150,7 @@ func ruleFreezeHandshake(r *Run, rule string) {
 		var op ssa.Instruction
 		allInstrs(fn, func(in ssa.Instruction) {
 			if call, ok := in.(*ssa.Call); ok {
-				if g := staticCallee(call.Common()); g != nil && (g.Name() == "add" || g.Name() == "addWithID" || g.Name() == "remove") && c.S(call.Call.Args[0]) == "P0.mutable" {
+				if g := staticCallee(call.Common()); g != nil && (fnShortName(g) == "add" || fnShortName(g) == "addWithID" || fnShortName(g) == "remove") && c.S(call.Call.Args[0]) == "P0.mutable" {
 					op = in
 				}
 			}
@@ -160,16 +160,34 @@ func ruleFreezeHandshake(r *Run, rule string) {
 	}
 	if fn := w.Fn("(*memtableQueue).rotateNoLock"); fn != nil {
 		// every caller holds the queue write lock
-		for _, g := range w.Funcs {
-			for _, call := range callsIn(g, func(cc *ssa.CallCommon) bool { return staticCallee(cc) == fn }) {
-				locks, unlocks, _ := lockCallsOn(w, g, "P0.mu")
-				excl := false
-				for _, l := range locks {
-					if calleeName(l.(ssa.CallInstruction).Common()) == "(*sync.RWMutex).Lock" && domInstr(l, call) {
-						excl = true
+		// held(g, call): the queue's write lock is held at call in g — taken in g itself, or g is a helper (same receiver,
+		// not used as a value) all of whose call sites hold it (bounded depth)
+		var held func(g *ssa.Function, call ssa.Instruction, depth int) bool
+		held = func(g *ssa.Function, call ssa.Instruction, depth int) bool {
+			locks, unlocks, _ := lockCallsOn(w, g, "P0.mu")
+			for _, l := range locks {
+				if calleeName(l.(ssa.CallInstruction).Common()) == "(*sync.RWMutex).Lock" && domInstr(l, call) && heldAt(g, locks, unlocks, call) {
+					return true
+				}
+			}
+			if depth >= 2 || len(locks) > 0 || g.Signature.Recv() == nil || !types.Identical(g.Signature.Recv().Type(), fn.Signature.Recv().Type()) || addressTaken(w, g) {
+				return false
+			}
+			n := 0
+			for _, h := range w.Funcs {
+				for _, cs := range callsIn(h, func(cc *ssa.CallCommon) bool { return staticCallee(cc) == g }) {
+					n++
+					// the helper must be called on the caller's own receiver
+					if len(cs.Common().Args) == 0 || NewCanon(w).S(cs.Common().Args[0]) != "P0" || !held(h, cs, depth+1) {
+						return false
 					}
 				}
-				r.Check(excl && heldAt(g, locks, unlocks, call), rule, "queue:rotate-under-lock:"+w.Name(g), w.InstrPos(call)+" "+w.Name(g), "rotation happens under the queue's write lock", "rotation without the queue's write lock")
+			}
+			return n > 0
+		}
+		for _, g := range w.Funcs {
+			for _, call := range callsIn(g, func(cc *ssa.CallCommon) bool { return staticCallee(cc) == fn }) {
+				r.Check(held(g, call, 0), rule, "queue:rotate-under-lock:"+w.Name(g), w.InstrPos(call)+" "+w.Name(g), "rotation happens under the queue's write lock", "rotation without the queue's write lock")
 			}
 		}
 		// freeze precedes the replacement of the active memtable
@@ -177,7 +195,7 @@ func ruleFreezeHandshake(r *Run, rule string) {
 		var fz, repl ssa.Instruction
 		allInstrs(fn, func(in ssa.Instruction) {
 			if call, ok := in.(*ssa.Call); ok {
-				if g := staticCallee(call.Common()); g != nil && g.Name() == "freeze" {
+				if g := staticCallee(call.Common()); g != nil && fnShortName(g) == "freeze" {
 					fz = in
 				}
 			}
@@ -261,7 +279,7 @@ func rulePolarity(r *Run, rule string, k *storeKind) {
 			for _, succ := range iff.Block().Succs {
 				for _, in2 := range succ.Instrs {
 					if call, ok := in2.(*ssa.Call); ok {
-						if g := staticCallee(call.Common()); g != nil && strings.HasPrefix(g.Name(), "sortResults") {
+						if g := staticCallee(call.Common()); g != nil && strings.HasPrefix(fnShortName(g), "sortResults") {
 							modalityDependent = true
 						}
 					}
